@@ -220,6 +220,43 @@ def run(ctx: Ctx) -> None:
         for i in range(4):
             lines.append(f"045  I --- 04:123456 --:------ 01:145038 {code} {n:03d} {g(rng, i)}")
             lines.append(f"045  I --- 22:123456 --:------ 01:145038 {code} {n:03d} {g(rng, i)}")
+    for code, (n, _src, g) in ARRAYS.items():          # ... and arrays of two / three elements from senders no array comes from (a zone device, a stranger)
+        for k in (2, 3):
+            els = "".join(g(rng, i) for i in range(1, k + 1))
+            lines.append(f"045  I --- 04:029390 --:------ 01:145038 {code} {k * n:03d} {els}")
+            lines.append(f"045  I --- 30:123456 --:------ 30:123456 {code} {k * n:03d} {els}")
+    # ONE packet object decoded again, decoded after its header / repr has been looked at, and a fresh object looked at first: the outcome (the payload,
+    # or being refused) is the same each time -- nothing a packet memoises about itself changes what it decodes to
+    from ramses_tx.message import Message  # noqa: PLC0415
+    from ramses_tx.packet import Packet  # noqa: PLC0415
+
+    def outcome(pkt):
+        try:
+            return json.dumps(Message(pkt).payload, sort_keys=True, default=str)
+        except Exception as err:  # noqa: BLE001
+            return "refused" if "Invalid" in type(err).__name__ else "EXC:" + type(err).__name__
+
+    for ln in lines:
+        try:
+            pkt, pkt2 = Packet.from_port(D, ln), Packet.from_port(D, ln)
+        except Exception:  # noqa: BLE001
+            continue
+        def look(p):
+            for attr in ("__repr__", "_hdr", "_ctx", "_idx"):
+                try:
+                    _ = repr(p) if attr == "__repr__" else getattr(p, attr)
+                except Exception:  # noqa: BLE001, S110
+                    pass
+
+        outs = [outcome(pkt), outcome(pkt)]
+        look(pkt)
+        outs.append(outcome(pkt))
+        look(pkt2)
+        outs.append(outcome(pkt2))
+        if len(set(outs)) > 1:
+            ctx.violation(f"decode-depends-on-what-the-packet-object-has-been-through:{ln.split()[6]}",
+                          f"{ln}: first decode / second decode of the same object / after its header was looked at / a fresh object looked at first: {[o[:80] for o in outs]}",
+                          {"line": ln, "outcomes": outs}, "history")
     first = {}
     for ln in lines:
         try:
